@@ -42,6 +42,63 @@ def random_module_set(rng):
     return "".join("//// module %s\n%s" % m for m in mods)
 
 
+def leak_sweep():
+    """two-module programs for state leaking between modules: k private constants (and a private function)
+    in one module, a function with n parameters and m local variables in another - every small combination,
+    both file orders, against the single file; plus private extern functions of the same name in both
+    modules and an opaque public structure.  Returns [(id, source)], ids `w<n>` (single file) and `w<n>.o<k>`."""
+    cases = []
+    sw = 0
+    for k in range(0, 6):
+        for npar in range(0, 4):
+            for nloc in range(1, 4):
+                consts = "".join("const C%d: i32 = %d;\n" % (j, 1000 + 111 * j) for j in range(k))
+                csum = " + ".join(["0"] + ["C%d" % j for j in range(k)])
+                params = ", ".join("p%d: i32" % j for j in range(npar))
+                body = "".join("\tvar v%d: i32 = %s;\n" % (j, ("p%d * 3" % (j % npar)) if npar else str(7 + j)) for j in range(nloc))
+                body += "".join("\tv%d = v%d + 1;\n" % (j, j) for j in range(nloc))
+                ret = " + ".join("v%d" % j for j in range(nloc))
+                util = "pub fn scale(%s) -> i32\n{\n%s\treturn: %s\n}\n" % (params, body, ret)
+                args = ", ".join(str(2 + j) for j in range(npar))
+                main = "fn own() -> i32\n{\n\treturn: %s\n}\nfn main() -> u8\n{\n\tprint!(own(), \" \", scale(%s), \"\\n\");\n\treturn: 0\n}\n" % (csum, args)
+                base = "w%d" % sw; sw += 1
+                cases.append((base, consts + util + main))
+                cases.append((base + ".o0", "//// module main.pn\nimport \"util.pn\";\n%s%s//// module util.pn\n%s" % (consts, main, util)))
+                cases.append((base + ".o1", "//// module util.pn\n%s//// module main.pn\nimport \"util.pn\";\n%s%s" % (util, consts, main)))
+    # each module has a PRIVATE extern function of the same name (their own definitions)
+    a = "extern fn helper() -> i32\n{\n\treturn: 40\n}\npub fn from_a() -> i32\n{\n\treturn: helper()\n}\n"
+    b = "import \"a.pn\";\nextern fn helper2() -> i32\n{\n\treturn: 2\n}\nfn main() -> u8\n{\n\tprint!(from_a() + helper2(), \"\\n\");\n\treturn: 0\n}\n"
+    single = a + b.replace("import \"a.pn\";\n", "")
+    b2 = b.replace("helper2", "helper")   # the same private name in both modules: two distinct functions
+    cases += [("w%d" % sw, single), ("w%d.o0" % sw, "//// module a.pn\n%s//// module b.pn\n%s" % (a, b2)), ("w%d.o1" % sw, "//// module b.pn\n%s//// module a.pn\n%s" % (b2, a))]; sw += 1
+    # an opaque public structure used through pointers by the importer
+    reg = "pub struct Owner;\npub struct Handler\n{\n\towner: &Owner,\n\tcode: i32,\n}\npub fn code_of(h: &Handler) -> i32\n{\n\treturn: h.code\n}\n"
+    use = "import \"reg.pn\";\nfn pass(o: &Owner, c: i32) -> i32\n{\n\treturn: c\n}\nfn main() -> u8\n{\n\tvar x: i32 = 42;\n\tprint!(x, \"\\n\");\n\treturn: 0\n}\n"
+    single = reg + use.replace("import \"reg.pn\";\n", "")
+    cases += [("w%d" % sw, single), ("w%d.o0" % sw, "//// module reg.pn\n%s//// module main.pn\n%s" % (reg, use)), ("w%d.o1" % sw, "//// module main.pn\n%s//// module reg.pn\n%s" % (use, reg))]; sw += 1
+    return cases
+
+
+def check_leaks(ck, label="leaks"):
+    """run the sweep: every split must behave like its single file (used by C01, C10, C12)"""
+    cases = leak_sweep()
+    impl = C.run_harness("exec", cases, ck.work + "/" + label, timeout=1800)
+    bad = 0; n = 0
+    for cid, src in cases:
+        if "." not in cid: continue
+        e = impl.get(cid.split(".")[0], ["missing"]); f = impl.get(cid, ["missing"])
+        if not e[0].startswith("ok"):
+            if cid.endswith(".o0"): ck.violation("impl-failure:single:" + e[0].split(" ")[0], "single-file program of the module sweep not accepted: " + e[0][:120], dict(cases)[cid.split(".")[0]])
+            continue
+        n += 1
+        if f[:2] != e[:2]:
+            bad += 1
+            ck.violation("split-behaves-differently", "a two-module program behaves differently from the single file (state leaking between modules, or an item of the wrong visibility)",
+                         "modules:\n%s\nmulti : %s\nsingle: %s" % (src, f[:2], e[:2]))
+    ck.log("module sweep: %d two-module runs compared, %d problems" % (n, bad))
+    return n, bad
+
+
 def run(tier):
     ck = C.Check("C12", tier)
     proof_ok = ck.prove()
@@ -97,25 +154,7 @@ def run(tier):
             victim = sorted(needs_pub)[0]
             text, _ = GP.source_modules(p, assign, random.Random(i), break_privacy=victim)
             privacy.append(("s%d.priv" % i, text))
-    # state that must not leak from one module into the next: k private constants (and a private
-    # function) in one module, a function with n parameters and m local variables in another - every
-    # small combination, both file orders, against the single file
-    sw = 0
-    for k in range(0, 6):
-        for npar in range(0, 4):
-            for nloc in range(1, 4):
-                consts = "".join("const C%d: i32 = %d;\n" % (j, 1000 + 111 * j) for j in range(k))
-                csum = " + ".join(["0"] + ["C%d" % j for j in range(k)])
-                params = ", ".join("p%d: i32" % j for j in range(npar))
-                body = "".join("\tvar v%d: i32 = %s;\n" % (j, ("p%d * 3" % (j % npar)) if npar else str(7 + j)) for j in range(nloc))
-                ret = " + ".join("v%d" % j for j in range(nloc))
-                util = "pub fn scale(%s) -> i32\n{\n%s\treturn: %s\n}\n" % (params, body, ret)
-                args = ", ".join(str(2 + j) for j in range(npar))
-                main = "fn own() -> i32\n{\n\treturn: %s\n}\nfn main() -> u8\n{\n\tprint!(own(), \" \", scale(%s), \"\\n\");\n\treturn: 0\n}\n" % (csum, args)
-                base = "w%d" % sw; sw += 1
-                cases.append((base, consts + util + main))
-                cases.append((base + ".o0", "//// module main.pn\nimport \"util.pn\";\n%s%s//// module util.pn\n%s" % (consts, main, util)))
-                cases.append((base + ".o1", "//// module util.pn\n%s//// module main.pn\nimport \"util.pn\";\n%s%s" % (util, consts, main)))
+    cases += leak_sweep()
     impl2 = C.run_harness("exec-tools", cases + privacy, ck.work + "/compose", timeout=1800)
     compared = 0; outs = set()
     for cid, src in cases:
